@@ -1,0 +1,105 @@
+//go:build verif
+
+package httpserver
+
+// Contracts for properties C01 / C05 / C12 (routing). Comment-only file, compiled only with -tags verif.
+
+/*@
+pred full(fs *ipfilter.IPFilters) := cap(fs.filters) == len(fs.filters)
+
+func newIPFilterChain(parentIPFilters *ipfilter.IPFilters, childSpec *ipfilter.Spec) (chain *ipfilter.IPFilters)
+  requires parent-wf: parentIPFilters != nil ==> ipfilter.wfFilters(parentIPFilters) && full(parentIPFilters)
+  ensures empty-chain-is-nil: (parentIPFilters == nil || len(parentIPFilters.filters) == 0) && childSpec == nil ==> chain == nil
+  ensures nonempty: chain != nil ==> fresh(chain) && ipfilter.wfFilters(chain) && full(chain) && len(chain.filters) >= 1
+  ensures parent-prefix: chain != nil && parentIPFilters != nil ==> len(chain.filters) == len(parentIPFilters.filters) + (childSpec != nil ? 1 : 0) && (forall k int :: 0 <= k && k < len(parentIPFilters.filters) ==> chain.filters[k] == parentIPFilters.filters[k])
+  ensures no-parent: chain != nil && parentIPFilters == nil ==> len(chain.filters) == 1
+  ensures child-last: chain != nil && childSpec != nil ==> chain.filters[len(chain.filters) - 1].spec == childSpec && fresh(chain.filters[len(chain.filters) - 1])
+  ensures chain-exists: childSpec != nil || (parentIPFilters != nil && len(parentIPFilters.filters) > 0) ==> chain != nil
+
+func newIPFilter(spec *ipfilter.Spec) (f *ipfilter.IPFilter)
+  ensures spec == nil ==> f == nil
+  ensures spec != nil ==> fresh(f) && ipfilter.wfFilter(f) && f.spec == spec
+
+func allowIP(ipFilter *ipfilter.IPFilter, ip string) (ok bool)
+  requires ipFilter != nil ==> ipfilter.wfFilter(ipFilter)
+  ensures ok == (ipFilter == nil || ipfilter.allows(ipFilter, ip))
+
+// ---- C01: which entry matches a request (written from the property statement) ----
+pred hostName(q *httpprot.Request) := hasPort(q.Request.Host) ? hostOnly(q.Request.Host) : q.Request.Host
+pred hostOK(r *muxRule, q *httpprot.Request) := (r.host == "" && r.hostRE == nil) || (r.host != "" && r.host == hostName(q)) || (r.hostRE != nil && reMatch(ref(r.hostRE), hostName(q)))
+pred pathOK(p *MuxPath, q *httpprot.Request) := (p.path == "" && p.pathPrefix == "" && p.pathRE == nil) || (p.path != "" && p.path == q.Request.URL.Path) || (p.pathPrefix != "" && hasPrefix(q.Request.URL.Path, p.pathPrefix)) || (p.pathRE != nil && reMatch(ref(p.pathRE), q.Request.URL.Path))
+pred methodOK(p *MuxPath, q *httpprot.Request) := len(p.methods) == 0 || stringtool.inSlice(q.Request.Method, p.methods)
+pred hdrVal(h *Header, q *httpprot.Request) := headerGet(ref(q.Request.Header), h.Key)
+pred hdrAllOK(h *Header, q *httpprot.Request) := (len(h.Values) == 0 || stringtool.inSlice(hdrVal(h, q), h.Values)) && (h.Regexp == "" || reMatch(ref(h.headerRE), hdrVal(h, q)))
+pred hdrAnyOK(h *Header, q *httpprot.Request) := stringtool.inSlice(hdrVal(h, q), h.Values) || (h.Regexp != "" && reMatch(ref(h.headerRE), hdrVal(h, q)))
+pred headersOK(p *MuxPath, q *httpprot.Request) := p.matchAllHeader ? (forall k int :: 0 <= k && k < len(p.headers) ==> hdrAllOK(p.headers[k], q)) : (exists k int :: 0 <= k && k < len(p.headers) && hdrAnyOK(p.headers[k], q))
+pred wfReq(q *httpprot.Request) := q != nil && q.Request != nil && q.Request.URL != nil
+pred wfPath(p *MuxPath) := p != nil && (forall k int :: 0 <= k && k < len(p.headers) ==> p.headers[k] != nil && (p.headers[k].Regexp != "" ==> p.headers[k].headerRE != nil)) && (p.ipFilter != nil ==> ipfilter.wfFilter(p.ipFilter))
+pred wfRule(r *muxRule) := r != nil && (forall j int :: 0 <= j && j < len(r.paths) ==> wfPath(r.paths[j])) && (r.ipFilter != nil ==> ipfilter.wfFilter(r.ipFilter))
+
+func (mr *muxRule) match(r *httpprot.Request) (ok bool)
+  requires mr != nil && wfReq(r)
+  ensures ok == hostOK(mr, r)
+
+func (mp *MuxPath) matchPath(r *httpprot.Request) (ok bool)
+  requires mp != nil && wfReq(r)
+  ensures ok == pathOK(mp, r)
+
+func (mp *MuxPath) matchMethod(r *httpprot.Request) (ok bool)
+  requires mp != nil && wfReq(r)
+  ensures ok == methodOK(mp, r)
+
+func (mp *MuxPath) matchHeaders(r *httpprot.Request) (ok bool)
+  requires wfPath(mp) && wfReq(r)
+  ensures ok == headersOK(mp, r)
+  invariant[1] forall k int :: 0 <= k && k < idx$1 ==> hdrAllOK(mp.headers[k], r)
+  invariant[2] forall k int :: 0 <= k && k < idx$2 ==> !hdrAnyOK(mp.headers[k], r)
+
+func (mp *MuxPath) rewrite(r *httpprot.Request)
+  requires mp != nil && wfReq(r)
+  requires matched: pathOK(mp, r)
+  modifies r.Request.URL.Path
+  ensures no-target-keeps-path: mp.rewriteTarget == "" ==> r.Request.URL.Path == old(r.Request.URL.Path)
+  ensures exact: mp.rewriteTarget != "" && mp.path != "" && mp.path == old(r.Request.URL.Path) ==> r.Request.URL.Path == mp.rewriteTarget
+  ensures prefix: mp.rewriteTarget != "" && !(mp.path != "" && mp.path == old(r.Request.URL.Path)) && mp.pathPrefix != "" && hasPrefix(old(r.Request.URL.Path), mp.pathPrefix) ==> r.Request.URL.Path == mp.rewriteTarget ++ substr(old(r.Request.URL.Path), len(mp.pathPrefix), len(old(r.Request.URL.Path)) - len(mp.pathPrefix))
+  ensures regexp: mp.rewriteTarget != "" && !(mp.path != "" && mp.path == old(r.Request.URL.Path)) && !(mp.pathPrefix != "" && hasPrefix(old(r.Request.URL.Path), mp.pathPrefix)) ==> r.Request.URL.Path == (mp.pathRE != nil ? reReplace(ref(mp.pathRE), old(r.Request.URL.Path), mp.rewriteTarget) : old(r.Request.URL.Path))
+
+// ---- search: first match wins, IP filters deny with 403, 400 / 405 / 404 otherwise ----
+pred entryOK(p *MuxPath, r *muxRule, q *httpprot.Request) := hostOK(r, q) && pathOK(p, q) && methodOK(p, q) && (len(p.headers) == 0 || headersOK(p, q))
+pred hdrMiss(p *MuxPath, r *muxRule, q *httpprot.Request) := hostOK(r, q) && pathOK(p, q) && methodOK(p, q) && len(p.headers) != 0 && !headersOK(p, q)
+pred mthMiss(p *MuxPath, r *muxRule, q *httpprot.Request) := hostOK(r, q) && pathOK(p, q) && !methodOK(p, q)
+pred ipOKf(f *ipfilter.IPFilter, ip string) := f == nil || ipfilter.allows(f, ip)
+pred inRange(mi *muxInstance, i int, j int) := 0 <= i && i < len(mi.rules) && 0 <= j && j < len(mi.rules[i].paths)
+pred before(i int, j int, a int, b int) := i < a || (i == a && j < b)
+pred wfMux(mi *muxInstance) := mi != nil && (forall i int :: 0 <= i && i < len(mi.rules) ==> wfRule(mi.rules[i])) && (mi.ipFilter != nil ==> ipfilter.wfFilter(mi.ipFilter))
+pred routeConstants() := notFound != nil && notFound.code == 404 && forbidden != nil && forbidden.code == 403 && methodNotAllowed != nil && methodNotAllowed.code == 405 && badRequest != nil && badRequest.code == 400
+
+// proof witnesses: the (rule, path) position at which search decided (matched entry or denying filter)
+ghost var wi int
+ghost var wj int
+
+func (mi *muxInstance) search(req *httpprot.Request) (res *route)
+  modifies wi, wj
+  requires wfMux(mi) && wfReq(req)
+  requires cache-disabled: mi.cache == nil
+  requires route-constants: routeConstants()
+  ensures res != nil
+  ensures first-match-wins: res.code == 0 ==> inRange(mi, wi, wj) && res.path == mi.rules[wi].paths[wj] && entryOK(mi.rules[wi].paths[wj], mi.rules[wi], req) && (forall i2, j2 int :: inRange(mi, i2, j2) && before(i2, j2, wi, wj) ==> !entryOK(mi.rules[i2].paths[j2], mi.rules[i2], req))
+  ensures routed-only-if-every-applicable-filter-allows: res.code == 0 ==> ipOKf(mi.ipFilter, req.realIP) && ipOKf(mi.rules[wi].ipFilter, req.realIP) && ipOKf(res.path.ipFilter, req.realIP)
+  ensures status-codes: res.code == 0 || res.code == 403 || res.code == 400 || res.code == 405 || res.code == 404
+  ensures no-entry-matches-otherwise: res.code != 0 && res.code != 403 ==> (forall i, j int :: inRange(mi, i, j) ==> !entryOK(mi.rules[i].paths[j], mi.rules[i], req))
+  ensures bad-request-iff-header-mismatch: res.code != 0 && res.code != 403 ==> (res.code == 400 <==> (exists i, j int :: inRange(mi, i, j) && hdrMiss(mi.rules[i].paths[j], mi.rules[i], req)))
+  ensures method-not-allowed-iff-method-mismatch-only: res.code != 0 && res.code != 403 && res.code != 400 ==> (res.code == 405 <==> (exists i, j int :: inRange(mi, i, j) && mthMiss(mi.rules[i].paths[j], mi.rules[i], req)))
+  ensures forbidden-only-if-a-filter-denies: res.code == 403 ==> !ipOKf(mi.ipFilter, req.realIP) || (0 <= wi && wi < len(mi.rules) && hostOK(mi.rules[wi], req) && (!ipOKf(mi.rules[wi].ipFilter, req.realIP) || (0 <= wj && wj < len(mi.rules[wi].paths) && !ipOKf(mi.rules[wi].paths[wj].ipFilter, req.realIP) && entryOK(mi.rules[wi].paths[wj], mi.rules[wi], req))))
+  ghost at call[2] allowIP: wi := idx$1
+  ghost at call[3] allowIP: wi := idx$1
+  ghost at call[3] allowIP: wj := idx$2
+  invariant[1] server-filter-passed: ipOKf(mi.ipFilter, req.realIP) && ip == req.realIP
+  invariant[1] none-before: forall i, j int :: inRange(mi, i, j) && i < idx$1 ==> !entryOK(mi.rules[i].paths[j], mi.rules[i], req)
+  invariant[1] header-flag: headerMismatch <==> (exists i, j int :: inRange(mi, i, j) && i < idx$1 && hdrMiss(mi.rules[i].paths[j], mi.rules[i], req))
+  invariant[1] method-flag: methodMismatch <==> (exists i, j int :: inRange(mi, i, j) && i < idx$1 && mthMiss(mi.rules[i].paths[j], mi.rules[i], req))
+  invariant[2] rule: 0 <= idx$1 && idx$1 < len(mi.rules) && host == mi.rules[idx$1] && hostOK(host, req) && ipOKf(host.ipFilter, req.realIP) && ipOKf(mi.ipFilter, req.realIP) && ip == req.realIP
+  invariant[2] none-before: forall i, j int :: inRange(mi, i, j) && before(i, j, idx$1, idx$2) ==> !entryOK(mi.rules[i].paths[j], mi.rules[i], req)
+  invariant[2] header-flag: headerMismatch <==> (exists i, j int :: inRange(mi, i, j) && before(i, j, idx$1, idx$2) && hdrMiss(mi.rules[i].paths[j], mi.rules[i], req))
+  invariant[2] method-flag: methodMismatch <==> (exists i, j int :: inRange(mi, i, j) && before(i, j, idx$1, idx$2) && mthMiss(mi.rules[i].paths[j], mi.rules[i], req))
+@*/
